@@ -65,11 +65,26 @@ def instance_memos(mod, cls):
                 if t and t[0] == "sub":
                     root = alias_path(t[1])
                     if root in dict_tested:
-                        memos[root] = (fn.name, e.node, "dict")
+                        memos[root] = (fn.name, e.node, "dict", tuple(t[2]))
                     c = t[1].as_atom()
                     if c and call_name(c) == "getattr" and c[2] and c[2][0].key() == "self" and _str(c[2][1]) in dict_tested:
-                        memos[_str(c[2][1])] = (fn.name, e.node, "dict")
-    return {k: v for k, v in memos.items() if not k.startswith("_have_warned")}
+                        memos[_str(c[2][1])] = (fn.name, e.node, "dict", tuple(t[2]))
+    return {k: v for k, v in memos.items() if not k.startswith("_have_warned") and k not in _dead_memos(mod, cls, memos)}
+
+
+def _dead_memos(mod, cls, memos):
+    """memo attributes that their own getter resets unconditionally before use (not a cache at all)."""
+    dead = set()
+    for name, info in memos.items():
+        fn = mod.funcs.get(f"{cls}.{info[0]}")
+        if fn is None:
+            continue
+        for st in fn.body:
+            if isinstance(st, ast.Assign) and len(st.targets) == 1 and isinstance(st.targets[0], ast.Attribute) \
+                    and isinstance(st.targets[0].value, ast.Name) and st.targets[0].value.id == "self" and st.targets[0].attr == name \
+                    and ((isinstance(st.value, ast.Dict) and not st.value.keys) or (isinstance(st.value, ast.Constant) and st.value.value is None)):
+                dead.add(name)
+    return dead
 
 
 def read_attrs(mod, cls, meth, depth=0, seen=None):
@@ -185,8 +200,15 @@ def class_memo_discipline(chk, rule, rel, cls, allow=None, attr_types=None, stat
     memos = {k: v for k, v in instance_memos(mod, cls).items() if k not in allow}
     fx = Effects(chk.repo, attr_types or {})
     n = 0
-    for name, (getter, node, kind) in sorted(memos.items()):
+    for name, info in sorted(memos.items()):
+        getter, node, kind = info[0], info[1], info[2]
         reads = set(state) if state else (read_attrs(mod, cls, getter) - set(memos) - set(allow))
+        if kind == "dict" and len(info) > 3 and info[3]:
+            # attributes that are part of the dictionary key cannot go stale
+            names = {f.name for f in mod.methods(cls)}
+            for kt in info[3]:
+                for a in _self_attrs(kt):
+                    reads -= (read_attrs(mod, cls, a) if a in names else {a})
         mutators = {}
         for fn in mod.methods(cls):
             if is_classmethod(fn) or fn.name in ("__init__", getter):
